@@ -1,6 +1,6 @@
 SPECIFICATION Spec
 CONSTANTS Family = "src"
  Scope = "thorough"
- Emit = FALSE
-INVARIANTS C01_Sem C02_Sem C03_Sem C04_Sem
+ Emit = TRUE
+INVARIANTS EmitInv
 CHECK_DEADLOCK FALSE
